@@ -757,14 +757,18 @@ def parse_model(model: str, *, check_syntax: bool = True) -> List[Symbol]:
                     warnings.simplefilter('always')
 
                     # Check the syntax of the current equation without running
-                    # it, in the context it will run in: the body of a method
+                    # it, in the context it will run in: the body of the
+                    # `_evaluate()` method of a class (same arguments, same depth)
                     try:
                         compile(
-                            'def _():\n' + textwrap.indent(e, '    ') + '\n    pass',
+                            'class _:\n'
+                            '    def _evaluate(self, t, *, errors=None, catch_first_error=None, iteration=None, **kwargs):\n'
+                            + textwrap.indent(e, '        ')
+                            + '\n        pass',
                             '<string>',
                             'exec',
                         )
-                    except SyntaxError:
+                    except (SyntaxError, RecursionError, MemoryError):
                         problem_statements.append((i, statement, e))
                         break
 
